@@ -64,6 +64,13 @@ def digest(a):
     return hashlib.sha256(np.ascontiguousarray(a).tobytes() + str(a.dtype).encode() + str(a.shape).encode()).hexdigest()
 
 
+def changed_contents(t, d0, dt0):
+    d1 = t.data
+    if d1 is d0:
+        return False            # (writes into the same array are what the byte snapshots watch)
+    return bool(d1.dtype != dt0 or d1.shape != d0.shape or d1.tobytes() != d0.tobytes())
+
+
 def run_op_case(ns, mon, case):
     T = ns.Tensor
     rng = gen.rng_for(case["seed"], "vals")
@@ -122,7 +129,10 @@ def run_op_case(ns, mon, case):
         mon.drain()
         return {"counters": {"forward_rejected": 1}}
     counters["forward_snapshots"] = 1
-    rebound = [i for i, (t, d0, dt0) in enumerate(held) if t.data is not d0 or t.data.dtype != dt0]
+    # an operand tensor that holds another array afterwards: a violation when dtype, shape or values differ from what it was given
+    # (a re-wrapped array with identical contents is only counted)
+    counters["operand_rebound_same_contents"] = sum(1 for t, d0, dt0 in held if t.data is not d0 and changed_contents(t, d0, dt0) is False)
+    rebound = [i for i, (t, d0, dt0) in enumerate(held) if changed_contents(t, d0, dt0)]
     if rebound:
         t, d0, dt0 = held[rebound[0]]
         viol.append(V(f"{sig}:forward-rebound-operand-data", f"forward replaced the data array of operand {rebound[0]} (dtype {dt0} -> {t.data.dtype}): "
@@ -153,7 +163,7 @@ def run_op_case(ns, mon, case):
             mon.drain()
             return {"counters": dict(counters, backward_rejected=1)}
         counters["backward_snapshots"] = 1
-        rebound = [i for i, (t, d0, dt0) in enumerate(held) if t.data is not d0 or t.data.dtype != dt0]
+        rebound = [i for i, (t, d0, dt0) in enumerate(held) if changed_contents(t, d0, dt0)]
         if rebound and not any(v["sig"].endswith("forward-rebound-operand-data") for v in viol):
             viol.append(V(f"{sig}:backward-rebound-operand-data", f"backward replaced the data array of operand {rebound[0]}", which=rebound, args=a))
         s1 = snap(watched)
